@@ -434,6 +434,53 @@ def m_for_each(I, st, c, args, body, t):
     return st, UNIT
 
 
+def m_slice_sort(I, st, c, args, body, t):
+    """sort / sort_by / sort_by_key / sort_by_cached_key / sort_unstable* / reverse / rotate / swap on a slice: a permutation.
+    The key / comparator closure is called on arbitrary elements (its panics are obligations like any other); afterwards the
+    elements are the same multiset in an order the domain does not track."""
+    nm = c.get("name")
+    v = deref(I, st, args[0])
+    if isinstance(v, RefV):
+        v = deref(I, st, v)
+    elem = None
+    if isinstance(v, VecV):
+        if v.elems is not None:
+            for e in v.elems:
+                elem = e if elem is None else join(elem, e)
+        else:
+            elem = v.summary
+    if elem is None:
+        elem = Top(deps_of(v), "element of the sorted slice")
+    if len(args) > 1 and nm not in ("reverse", "rotate_left", "rotate_right", "swap"):
+        n_el = 2 if nm in ("sort_by", "sort_unstable_by", "select_nth_unstable_by") else 1
+        # (the probe elements live in cells tied to the call site: a fresh cell per visit would keep a surrounding loop from
+        # reaching its fixpoint)
+        sp = t.get("span") or {}
+        cells = []
+        for k_ in range(n_el):
+            key = ("sort-probe", body.name if body is not None else "?", sp.get("line"), sp.get("col"), k_)
+            cid = I.side.get(key)
+            if cid is None:
+                cid = I.new_cell(st, elem)
+                I.side[key] = cid
+            else:
+                old = st.heap.get(cid)
+                I.cell_set(st, cid, elem if old is None else join(old, elem))
+            cells.append(cid)
+        try:
+            s2, _r = I.call_value(st.copy(), args[-1], [RefV(c_) for c_ in cells])
+            st, _ = I.join_states(st, s2)
+        except Diverge:
+            pass
+    if isinstance(v, VecV) and v.elems is not None and len(v.elems) > 1 and isinstance(args[0], RefV):
+        tgt = args[0]
+        inner = I.get_path(st, tgt.cell, tgt.proj)
+        if isinstance(inner, RefV):
+            tgt = inner
+        I.set_path(st, tgt.cell, tgt.proj, VecV(None, IntV.const("usize", len(v.elems)), elem, elem_ty=v.elem_ty))
+    return st, UNIT
+
+
 def m_try_for_each(I, st, c, args, body, t):
     """try_for_each(f): like for_each, but stops at the first Err / None the closure returns, which is then the result"""
     it = M.to_iter(I, st, args[0])
@@ -1679,9 +1726,11 @@ def m_opaque_cmp(I, st, c, args, body, t):
     ta, tb = getattr(a, "term", None), getattr(b, "term", None)
     if nm in ("lt", "le", "gt", "ge"):
         return st, BoolV(None, None, deps_of(a) | deps_of(b), (nm.capitalize(), ta, tb))
-    if nm in ("cmp", "partial_cmp"):
+    if nm in ("cmp", "partial_cmp", "total_cmp"):
         ordv = EnumV("std::cmp::Ordering", {"Less": ((), {}), "Equal": ((), {}), "Greater": ((), {})})
-        return st, (ordv if nm == "cmp" else EnumV.some(ordv))
+        if isinstance(a, IntV) and isinstance(b, IntV) and a.is_const() and b.is_const():
+            ordv = EnumV("std::cmp::Ordering", {("Less" if a.lo < b.lo else "Equal" if a.lo == b.lo else "Greater"): ((), {})})
+        return st, (EnumV.some(ordv) if nm == "partial_cmp" else ordv)
     return st, Top(deps_of(a) | deps_of(b), nm)
 
 
@@ -1746,6 +1795,8 @@ def install(models):
     for nm, f in (("first", m_first_last), ("last", m_first_last), ("get", m_slice_get), ("is_empty", m_is_empty),
                   ("chunks", m_slice_chunks), ("chunks_exact", m_slice_chunks), ("windows", m_slice_chunks),
                   ("as_chunks", m_as_chunks), ("as_rchunks", m_as_chunks),
+                  ("sort_unstable", m_slice_sort), ("sort_unstable_by", m_slice_sort), ("sort_unstable_by_key", m_slice_sort),
+                  ("rotate_left", m_slice_sort), ("rotate_right", m_slice_sort),
                   ("split_at", m_split_at), ("reverse", m_slice_reverse), ("starts_with", m_starts_ends_with),
                   ("ends_with", m_starts_ends_with), ("to_owned", M.m_to_vec)):
         E[sl + nm] = f
@@ -1839,6 +1890,9 @@ def install(models):
     E["core::array::<impl [T; N]>::map"] = m_array_map
     E["std::iter::Iterator::flat_map"] = m_flat_map
     E["std::iter::Iterator::flatten"] = m_flat_map
+    for nm_ in ("sort", "sort_by", "sort_by_key", "sort_by_cached_key"):
+        E["std::slice::<impl [T]>::" + nm_] = m_slice_sort
+        E["alloc::slice::<impl [T]>::" + nm_] = m_slice_sort
     E["std::mem::take"] = m_mem_take
     E["std::mem::replace"] = m_mem_replace
     E["std::mem::drop"] = m_noop
@@ -1888,6 +1942,8 @@ def install(models):
             return m_tuple_cmp
         if p == "std::cmp::Ord::clamp":
             return m_clamp
+        if nm in ("cmp", "partial_cmp", "total_cmp") and (p in ("std::cmp::Ord::cmp", "std::cmp::PartialOrd::partial_cmp") or "total_cmp" in name):
+            return m_opaque_cmp
         if p in ("std::cmp::PartialOrd::lt", "std::cmp::PartialOrd::le", "std::cmp::PartialOrd::gt", "std::cmp::PartialOrd::ge") and (
                 "chrono" in name or "time::Duration" in name or "String" in name or "str" in name):
             return m_opaque_cmp
